@@ -548,7 +548,8 @@ def admission_jobs(r, n: int, prefix: str) -> List[tuple]:
                        f'using protocol version {ver}'
                 if r.random() < 0.3:
                     line = line.replace('Connecting', 'connecting').replace(' as ', ' AS ')
-                seq.append({'kind': 'raw', 'seat': s, 'team': team, 'version': ver, 'line': line})
+                seq.append({'kind': 'raw', 'seat': s, 'team': team, 'version': ver, 'line': line,
+                            'hangup': r.random() < 0.3})
             seq.append(g)
             seated[g['seat']] = g['team']
         boards = rand_boards(r, 1)
